@@ -40,6 +40,28 @@ type qspec struct {
 	R    *qspec    `json:"r,omitempty"`
 	Fam  int       `json:"fam"`             // family id (same selector and grouping, all five functions), -1 = none
 	Kn   string    `json:"known,omitempty"` // known-defect class this query was generated for ("" = main stream)
+	// time range of the query: [t0+Lo, t0+Hi], both ends inclusive; Hi == 0 means the full window [0, window].
+	// Full = index of the same query over the full window (-1: none)
+	Lo   int `json:"lo,omitempty"`
+	Hi   int `json:"hi,omitempty"`
+	Full int `json:"full"`
+}
+
+func (q qspec) win() (int, int) {
+	if q.Hi == 0 && q.Lo == 0 {
+		return 0, window
+	}
+	return q.Lo, q.Hi
+}
+func (q qspec) narrow() bool { lo, hi := q.win(); return lo != 0 || hi != window }
+
+// text used in messages and replays
+func (q qspec) show() string {
+	if !q.narrow() {
+		return q.promql()
+	}
+	lo, hi := q.win()
+	return fmt.Sprintf("%s over [+%d,+%d]", q.promql(), lo, hi)
 }
 
 func (q qspec) selector() string {
@@ -148,9 +170,12 @@ func matches(m matcher, ls map[string]string) bool {
 	return !ok
 }
 
-func pointsOf(d dataset, si, maxPhase int) map[uint32]float64 {
+func pointsOf(d dataset, si, maxPhase, lo, hi int) map[uint32]float64 {
 	out := map[uint32]float64{}
 	for _, p := range d.DPs {
+		if off := int(p.T) - int(d.T0); off < lo || off > hi {
+			continue // outside the queried time range (both ends inclusive)
+		}
 		if p.S == si && p.Phase <= maxPhase {
 			out[p.T] = float64(p.V)
 		}
@@ -207,11 +232,16 @@ func fold(fn string, vs []float64) float64 {
 
 // withName: selectors keep the metric name; aggregations and arithmetic drop it
 func expect(q qspec, d dataset, maxPhase int) answer {
+	lo, hi := q.win()
+	return expectIn(q, d, maxPhase, lo, hi)
+}
+
+func expectIn(q qspec, d dataset, maxPhase, lo, hi int) answer {
 	out := answer{}
 	switch q.Kind {
 	case "sel":
 		for _, i := range selected(q, d) {
-			ps := pointsOf(d, i, maxPhase)
+			ps := pointsOf(d, i, maxPhase, lo, hi)
 			if len(ps) > 0 {
 				out[canonLabels(q.Name, labelMap(d.Series[i]))] = ps
 			}
@@ -240,7 +270,7 @@ func expect(q qspec, d dataset, maxPhase int) answer {
 		for key, is := range members {
 			vals := map[uint32][]float64{}
 			for _, i := range is {
-				for t, v := range pointsOf(d, i, maxPhase) {
+				for t, v := range pointsOf(d, i, maxPhase, lo, hi) {
 					vals[t] = append(vals[t], v)
 				}
 			}
@@ -253,7 +283,7 @@ func expect(q qspec, d dataset, maxPhase int) answer {
 			}
 		}
 	case "arith":
-		l, r := expect(*q.L, d, maxPhase), expect(*q.R, d, maxPhase)
+		l, r := expectIn(*q.L, d, maxPhase, lo, hi), expectIn(*q.R, d, maxPhase, lo, hi)
 		strip := func(a answer) answer {
 			o := answer{}
 			for k, v := range a {
@@ -371,6 +401,22 @@ func sameAnswer(a, b answer) bool {
 		}
 	}
 	return true
+}
+
+// the answer restricted to the time range [t0+lo, t0+hi]; series left without a sample disappear
+func restrict(a answer, t0 uint32, lo, hi int) answer {
+	out := answer{}
+	for k, m := range a {
+		for t, v := range m {
+			if off := int(t) - int(t0); off >= lo && off <= hi {
+				if out[k] == nil {
+					out[k] = map[uint32]float64{}
+				}
+				out[k][t] = v
+			}
+		}
+	}
+	return out
 }
 
 func showAnswer(a answer, t0 uint32) string {
@@ -632,7 +678,85 @@ func genMain(r *vhlib.Rng, arith bool) (dataset, []qspec) {
 			qs = append(qs, qspec{Kind: "arith", Op: vhlib.Pick(r, []string{"+", "-", "*"}), L: &l, R: &rr, Fam: -1})
 		}
 	}
-	return d, qs
+	for i := range qs {
+		qs[i].Full = -1
+	}
+	return d, addWindows(r.Fork(), d, qs)
+}
+
+// ---------- query time ranges ----------
+// A narrow range has its ends on / next to timestamps that carry datapoints (both ends are inclusive)
+// or anywhere in the window; datapoints lie before, inside and after it and arrive in shuffled order,
+// so a block holds out-of-range datapoints before and after in-range ones.
+func genWindow(r *vhlib.Rng, d dataset) (int, int) {
+	seen := map[int]bool{}
+	var offs []int
+	for _, p := range d.DPs {
+		if o := int(p.T - d.T0); !seen[o] {
+			seen[o] = true
+			offs = append(offs, o)
+		}
+	}
+	sort.Ints(offs)
+	edge := func() int {
+		if r.Chance(25) {
+			return r.Range(0, window)
+		}
+		return vhlib.Pick(r, offs) + vhlib.Pick(r, []int{-1, 0, 0, 1})
+	}
+	lo, hi := edge(), edge()
+	if r.Chance(10) {
+		hi = lo // one-second range
+	}
+	if lo > hi {
+		lo, hi = hi, lo
+	}
+	if lo < 0 {
+		lo = 0
+	}
+	if hi > window {
+		hi = window
+	}
+	if lo == 0 && hi == 0 {
+		hi = 1 // (0,0) encodes the full window
+	}
+	return lo, hi
+}
+
+// every plain selector, and about half of the other queries (families as a whole), is asked a second
+// time over a narrow range; the copy remembers the full-window query it came from
+func addWindows(r *vhlib.Rng, d dataset, qs []qspec) []qspec {
+	var w [2][2]int
+	for i := range w {
+		w[i][0], w[i][1] = genWindow(r, d)
+	}
+	famWin := map[int]int{}
+	n := len(qs)
+	for i := 0; i < n; i++ {
+		q := qs[i]
+		var wi int
+		switch {
+		case q.Kind == "sel" && len(q.Ms) == 0:
+			wi = i % 2
+		case q.Fam >= 0:
+			if _, ok := famWin[q.Fam]; !ok {
+				famWin[q.Fam] = r.Intn(4) // 0,1: window, 2,3: no copy
+			}
+			wi = famWin[q.Fam]
+		default:
+			wi = r.Intn(4)
+		}
+		if wi > 1 {
+			continue
+		}
+		c := q
+		c.Lo, c.Hi, c.Full = w[wi][0], w[wi][1], i
+		if c.Fam >= 0 {
+			c.Fam += 100 * (wi + 1)
+		}
+		qs = append(qs, c)
+	}
+	return qs
 }
 
 // ---------- known-defect stream (separate generator, classes listed in known/C09.json) ----------
@@ -694,6 +818,9 @@ func genKnown(r *vhlib.Rng, which int) (dataset, []qspec) {
 		}
 	}
 	genPoints(r, &d, false)
+	for i := range qs {
+		qs[i].Full = -1
+	}
 	return d, qs
 }
 
@@ -840,6 +967,8 @@ func main() {
 	for _, j := range jobs {
 		for _, q := range j.qs {
 			j.d.Queries = append(j.d.Queries, q.promql())
+			lo, hi := q.win()
+			j.d.Wins = append(j.d.Wins, [2]int{lo, hi})
 		}
 		wg.Add(1)
 		go func(j *job) {
@@ -888,8 +1017,9 @@ func main() {
 			stream = "main_arith"
 		}
 		caseOf := func(qi int, stage string) map[string]interface{} {
-			return map[string]interface{}{"dataset": j.d, "query": j.qs[qi].promql(), "stage": stage,
-				"replay": "save the dataset object as d.json (its queries field lists all queries of the run) and run: work/bin/c09 probe d.json"}
+			lo, hi := j.qs[qi].win()
+			return map[string]interface{}{"dataset": j.d, "query": j.qs[qi].promql(), "query_index": qi, "range": [2]int{lo, hi}, "stage": stage,
+				"replay": "save the dataset object as d.json (its queries / wins fields list all queries of the run and their time ranges [t0+lo, t0+hi]) and run: work/bin/c09 probe d.json"}
 		}
 		if j.err != "" {
 			sum.Fail("metrics_worker_crash", j.err, map[string]interface{}{"dataset": j.d})
@@ -934,6 +1064,16 @@ func main() {
 					kind = "agg/" + q.Fn + "/" + map[string]string{"": "none", "by": "by", "without": "without"}[q.Grp]
 				}
 				sum.Count("query/" + kind)
+				if q.narrow() {
+					sum.Count("range/narrow")
+					if len(want) == 0 {
+						sum.Count("range/narrow_empty_answer")
+					} else if len(expectIn(q, j.d, st.maxPhase, 0, window)) > 0 && !sameAnswer(want, expectIn(q, j.d, st.maxPhase, 0, window)) {
+						sum.Count("range/narrow_cuts_datapoints")
+					}
+				} else {
+					sum.Count("range/full")
+				}
 				fail := func(cls, detail string) {
 					if q.Kn != "" {
 						for _, k := range knownKinds[q.Kn] {
@@ -942,7 +1082,7 @@ func main() {
 							}
 						}
 					}
-					sum.Fail(cls, fmt.Sprintf("%s at stage %s: %s", q.promql(), st.name, detail), caseOf(qi, st.name))
+					sum.Fail(cls, fmt.Sprintf("%s at stage %s: %s", q.show(), st.name, detail), caseOf(qi, st.name))
 				}
 				pre := map[string]string{"sel": "selector", "agg": "agg", "arith": "arith"}[q.Kind]
 				if len(o.Errs) > 0 {
@@ -952,6 +1092,18 @@ func main() {
 				if len(probs) > 0 {
 					fail(map[string]string{"sel": "selector_wrong_series", "agg": "agg_wrong_groups", "arith": "arith_wrong_series"}[q.Kind], strings.Join(probs, "; "))
 					continue
+				}
+				// the time range: no reported sample lies outside it ...
+				if lo, hi := q.win(); !sameAnswer(got, restrict(got, j.d.T0, lo, hi)) {
+					fail("sample_outside_query_range", fmt.Sprintf("range [+%d,+%d], returned %s", lo, hi, showAnswer(got, j.d.T0)))
+				}
+				// ... and the answer is the implementation's own full-window answer restricted to the range
+				if q.Full >= 0 && q.Kn == "" && len(st.obs.Q[q.Full].Errs) == 0 {
+					lo, hi := q.win()
+					if full := restrict(canon[st.name][q.Full], j.d.T0, lo, hi); !sameAnswer(got, full) {
+						fail("range_answer_not_restriction_of_full_answer", fmt.Sprintf("the answer over the full window, restricted to the range, is %s; the query over the range returned %s",
+							showAnswer(full, j.d.T0), showAnswer(got, j.d.T0)))
+					}
 				}
 				if !sameKeys(want, got) {
 					fail(map[string]string{"sel": "selector_wrong_series", "agg": "agg_wrong_groups", "arith": "arith_wrong_series"}[q.Kind],
@@ -998,7 +1150,7 @@ func main() {
 			}
 			for qi, q := range j.qs {
 				if !sameAnswer(a[qi], b[qi]) {
-					sum.Fail(p[2], fmt.Sprintf("%s: stage %s returns %s, stage %s returns %s", q.promql(), p[0], showAnswer(a[qi], j.d.T0), p[1], showAnswer(b[qi], j.d.T0)), caseOf(qi, p[0]+"/"+p[1]))
+					sum.Fail(p[2], fmt.Sprintf("%s: stage %s returns %s, stage %s returns %s", q.show(), p[0], showAnswer(a[qi], j.d.T0), p[1], showAnswer(b[qi], j.d.T0)), caseOf(qi, p[0]+"/"+p[1]))
 				}
 			}
 		}
@@ -1019,11 +1171,12 @@ func main() {
 			}
 			var items []string
 			for qi := range j.qs {
-				items = append(items, fmt.Sprintf("(q%d_%d, %s)", j.idx, qi, coqObs(st.obs.Q[qi], j.d.T0)))
+				lo, hi := j.qs[qi].win()
+				items = append(items, fmt.Sprintf("((%d, %d)%%Z, q%d_%d, %s)", lo, hi, j.idx, qi, coqObs(st.obs.Q[qi], j.d.T0)))
 			}
-			fmt.Fprintf(&defs, "Definition cs%d_%d : list (qcase * obs) := %s.\n", j.idx, si, vhlib.CoqListNL(items))
+			fmt.Fprintf(&defs, "Definition cs%d_%d : list ((Z * Z) * qcase * obs) := %s.\n", j.idx, si, vhlib.CoqListNL(items))
 			db := map[int]string{0: "a", 1: "a", 2: "b", 3: "b", 4: "c", 5: "c"}[si]
-			exprs = append(exprs, fmt.Sprintf("check_cases db%d_%s cs%d_%d %d", j.idx, db, j.idx, si, j.idx*10000+si*1000))
+			exprs = append(exprs, fmt.Sprintf("check_cases_w db%d_%s cs%d_%d %d", j.idx, db, j.idx, si, j.idx*10000+si*1000))
 			ncases += len(j.qs)
 		}
 		if ncases >= 450 {
@@ -1034,6 +1187,7 @@ func main() {
 	sum.Notes = append(sum.Notes,
 		"values are multiples of 60 and at most 6 series share a metric, so sums and averages are exact integers in binary64; results are compared exactly",
 		"all datapoints lie within a 300 s window (down-sampling step 1 s, one point per series and second)",
+		"time ranges: every query over the full window [t0, t0+300]; every plain selector and about half of the other queries a second time over a narrow range whose ends lie on / next to datapoint timestamps (datapoints before, inside and after the range, ingested in shuffled order)",
 		"model comparison: exact series-id byte strings (label order included) and exact sample values, for every stage (open, rotated, open+rotated, two rotated segments, unsplit)",
 		"case index = dataset*10000 + stage*1000 + query")
 	sum.Write(cfg.Out)
